@@ -112,7 +112,7 @@ def random_flat(rng, *, n_nodes=(2, 5), cyclic=0.35, gate=0.6, multi_out=0.25, s
 
 def job(jid, prog, provided, mode="sync", select=None, lists=None):
     return {"id": jid, "prog": prog, "provided": provided, "mode": mode, "select": list(select) if select else list(IR.UNSET),
-            "lists": [list(x) for x in (lists or [])], "map": {"over": [], "mode": "zip", "eh": "raise"}}
+            "lists": [list(x) for x in (lists or [])], "map": {"over": [], "mode": "zip", "eh": "raise"}, "seq": [], "cap": 0}
 
 
 def _subsets(pool, lo, hi):
@@ -419,3 +419,52 @@ def conc_template(depth, fan, width=2, map_at=None, async_leaves=True):
         provided.append(["vs", text])
     top_nodes.append(A("Z", [f"t{i}" for i in range(width)] + (["r1"] if depth >= 1 else []), ["z"]))
     return IR.prog("top", top_nodes, max_iter=50), provided, lists
+
+
+def shared_output_loop(n_cont, explicit_gate_kind="route"):
+    """Documented 'shared outputs in a cycle' shape (docs/03-patterns/03-agentic-loops.md): two
+    accumulators write `messages`, ordered by an emit/wait_for pair; the gate targets the query
+    generator."""
+    gq = IR.func("generate_query", ["messages"], ["query"])
+    aq = IR.normalize_node(dict(name="accumulate_query", kind="func", inputs=["messages", "query"], outputs=["messages", "query_done"], ndata=1))
+    gr = IR.func("generate_response", ["messages"], ["response"])
+    ar = IR.normalize_node(dict(name="accumulate_response", kind="func", inputs=["messages", "response"], outputs=["messages"], wait_for=["query_done"]))
+    script = [["generate_query"]] * n_cont + [["END"]]
+    if explicit_gate_kind == "ifelse":
+        g = IR.ifelse("should_continue", ["messages"], "generate_query", "END", script)
+    else:
+        g = IR.route("should_continue", ["messages"], ["generate_query", "END"], script)
+    prog = IR.prog("top", [gq, aq, gr, ar, g], max_iter=80)
+    meta = {"shape": "shared", "body": ["generate_query"], "gate": "should_continue", "exit": IR.NONE, "entry": 1, "frame": "",
+            "seed": [["messages", "in.messages"]], "n_cont": n_cont, "expect": []}
+    return prog, [["messages", "in.messages"]], meta
+
+
+def rename_nodes(prog, mapping):
+    """Consistently rename nodes (names, gate targets, scripts, entry points)."""
+    import copy as _c
+    p = _c.deepcopy(prog)
+    for n in p["nodes"]:
+        n["name"] = mapping.get(n["name"], n["name"])
+        n["targets"] = [mapping.get(t, t) for t in n["targets"]]
+        n["script"] = [[mapping.get(t, t) for t in s] for s in n["script"]]
+        n["dec_args"] = [[v, [mapping.get(t, t) for t in s]] for v, s in n["dec_args"]]
+        if n["fallback"] in mapping:
+            n["fallback"] = mapping[n["fallback"]]
+    p["entry"] = [mapping.get(e, e) for e in p["entry"]]
+    return p
+
+
+def swap_params(node):
+    """Variant of a function node whose first two parameters were swapped in ONE with_inputs() call
+    (current names stay the same; the underlying parameters are exchanged)."""
+    import copy as _c
+    n = _c.deepcopy(node)
+    if len(n["inputs"]) < 2:
+        return None
+    a, b = n["inputs"][0], n["inputs"][1]
+    pm = dict(map(tuple, n["pmap"]))
+    pm[a], pm[b] = pm[b], pm[a]
+    n["pmap"] = [[p, pm[p]] for p in n["inputs"]]
+    n["materialize"] = True
+    return n
